@@ -114,107 +114,122 @@ Definition starts (p l : list N) : option (list N) :=
      | _ :: _, [] => None
      end) p l.
 
-(* value / members / elements with explicit fuel; depth = nesting is implicit *)
-Fixpoint p_value (fuel : nat) (l : list N) : option (list tok * list N) :=
-  match fuel with
-  | O => None
-  | S f =>
-      match skip_ws l with
-      | [] => None
-      | c :: r =>
-          if c =? 123 then (* { *)
-            match skip_ws r with
-            | c1 :: r' =>
-                if c1 =? 125 then Some ([TLBrace; TRBrace], r')
-                else match p_members f (c1 :: r') with
-                     | Some (ts, rest) => Some (TLBrace :: ts, rest)
-                     | None => None
-                     end
-            | [] => None
-            end
-          else if c =? 91 then (* [ *)
-            match skip_ws r with
-            | c1 :: r' =>
-                if c1 =? 93 then Some ([TLBrack; TRBrack], r')
-                else match p_elements f (c1 :: r') with
-                     | Some (ts, rest) => Some (TLBrack :: ts, rest)
-                     | None => None
-                     end
-            | [] => None
-            end
-          else if c =? 34 then
-            match p_string_body r with Some (b, rest) => Some ([TStr b], rest) | None => None end
-          else if (c =? 45) || digit_b c then
-            let '(num, rest) := span numchar_b (c :: r) in
-            if json_number num then Some ([TNum num], rest) else None
-          else if c =? 116 then match starts [114; 117; 101] r with Some rest => Some ([TTrue], rest) | None => None end
-          else if c =? 102 then match starts [97; 108; 115; 101] r with Some rest => Some ([TFalse], rest) | None => None end
-          else if c =? 110 then match starts [117; 108; 108] r with Some rest => Some ([TNull], rest) | None => None end
-          else None
-      end
-  end
-(* after '{' with at least one member: string : value (, string : value)* } *)
-with p_members (fuel : nat) (l : list N) : option (list tok * list N) :=
-  match fuel with
-  | O => None
-  | S f =>
-      match skip_ws l with
-      | q :: r =>
-          if negb (q =? 34) then None else
-          match p_string_body r with
-          | None => None
-          | Some (k, r1) =>
-              match skip_ws r1 with
-              | c :: r2 =>
-                  if negb (c =? 58) then None else
-                  match p_value f r2 with
-                  | None => None
-                  | Some (vt, r3) =>
-                      match skip_ws r3 with
-                      | c3 :: r4 =>
-                          if c3 =? 125 then Some (TStr k :: TColon :: vt ++ [TRBrace], r4)
-                          else if c3 =? 44 then
-                            match p_members f r4 with
-                            | Some (ts, rest) => Some (TStr k :: TColon :: vt ++ TComma :: ts, rest)
-                            | None => None
-                            end
-                          else None
-                      | [] => None
-                      end
-                  end
+(* value / members / elements with explicit fuel.
+   Two parameters turn the pure RFC grammar into the language a particular
+   implementation accepts: an optional nesting limit (an opener at nesting
+   depth d is allowed when S d <= limit) and a predicate every number token
+   must satisfy (e.g. "fits float64").  The RFC itself is lim = None,
+   numok = fun _ => true. *)
+Definition depth_ok (lim : option nat) (d : nat) : bool :=
+  match lim with None => true | Some m => Nat.leb (S d) m end.
+
+Fixpoint pg_value (lim : option nat) (numok : list N -> bool) (fuel : nat) (d : nat) (l : list N) : option (list tok * list N) :=
+    match fuel with
+    | O => None
+    | S f =>
+        match skip_ws l with
+        | [] => None
+        | c :: r =>
+            if c =? 123 then (* { *)
+              if negb (depth_ok lim d) then None else
+              match skip_ws r with
+              | c1 :: r' =>
+                  if c1 =? 125 then Some ([TLBrace; TRBrace], r')
+                  else match pg_members lim numok f (S d) (c1 :: r') with
+                       | Some (ts, rest) => Some (TLBrace :: ts, rest)
+                       | None => None
+                       end
               | [] => None
               end
-          end
-      | [] => None
-      end
-  end
-with p_elements (fuel : nat) (l : list N) : option (list tok * list N) :=
-  match fuel with
-  | O => None
-  | S f =>
-      match p_value f l with
-      | None => None
-      | Some (vt, r1) =>
-          match skip_ws r1 with
-          | c :: r2 =>
-              if c =? 93 then Some (vt ++ [TRBrack], r2)
-              else if c =? 44 then
-                match p_elements f r2 with
-                | Some (ts, rest) => Some (vt ++ TComma :: ts, rest)
-                | None => None
+            else if c =? 91 then (* [ *)
+              if negb (depth_ok lim d) then None else
+              match skip_ws r with
+              | c1 :: r' =>
+                  if c1 =? 93 then Some ([TLBrack; TRBrack], r')
+                  else match pg_elements lim numok f (S d) (c1 :: r') with
+                       | Some (ts, rest) => Some (TLBrack :: ts, rest)
+                       | None => None
+                       end
+              | [] => None
+              end
+            else if c =? 34 then
+              match p_string_body r with Some (b, rest) => Some ([TStr b], rest) | None => None end
+            else if (c =? 45) || digit_b c then
+              let '(num, rest) := span numchar_b (c :: r) in
+              if json_number num && numok num then Some ([TNum num], rest) else None
+            else if c =? 116 then match starts [114; 117; 101] r with Some rest => Some ([TTrue], rest) | None => None end
+            else if c =? 102 then match starts [97; 108; 115; 101] r with Some rest => Some ([TFalse], rest) | None => None end
+            else if c =? 110 then match starts [117; 108; 108] r with Some rest => Some ([TNull], rest) | None => None end
+            else None
+        end
+    end
+  (* after the opening brace with at least one member: string : value (, string : value)* } *)
+with pg_members (lim : option nat) (numok : list N -> bool) (fuel : nat) (d : nat) (l : list N) : option (list tok * list N) :=
+    match fuel with
+    | O => None
+    | S f =>
+        match skip_ws l with
+        | q :: r =>
+            if negb (q =? 34) then None else
+            match p_string_body r with
+            | None => None
+            | Some (k, r1) =>
+                match skip_ws r1 with
+                | c :: r2 =>
+                    if negb (c =? 58) then None else
+                    match pg_value lim numok f d r2 with
+                    | None => None
+                    | Some (vt, r3) =>
+                        match skip_ws r3 with
+                        | c3 :: r4 =>
+                            if c3 =? 125 then Some (TStr k :: TColon :: vt ++ [TRBrace], r4)
+                            else if c3 =? 44 then
+                              match pg_members lim numok f d r4 with
+                              | Some (ts, rest) => Some (TStr k :: TColon :: vt ++ TComma :: ts, rest)
+                              | None => None
+                              end
+                            else None
+                        | [] => None
+                        end
+                    end
+                | [] => None
                 end
-              else None
-          | [] => None
-          end
-      end
-  end.
+            end
+        | [] => None
+        end
+    end
+with pg_elements (lim : option nat) (numok : list N -> bool) (fuel : nat) (d : nat) (l : list N) : option (list tok * list N) :=
+    match fuel with
+    | O => None
+    | S f =>
+        match pg_value lim numok f d l with
+        | None => None
+        | Some (vt, r1) =>
+            match skip_ws r1 with
+            | c :: r2 =>
+                if c =? 93 then Some (vt ++ [TRBrack], r2)
+                else if c =? 44 then
+                  match pg_elements lim numok f d r2 with
+                  | Some (ts, rest) => Some (vt ++ TComma :: ts, rest)
+                  | None => None
+                  end
+                else None
+            | [] => None
+            end
+        end
+    end.
 
-(* a JSON text: one value surrounded by white space.  Fuel 2*len+4 suffices. *)
-Definition parse_json (data : list N) : option (list tok * list N) :=
-  match p_value (2 * length data + 4) data with
+  (* a JSON text: one value surrounded by white space.  Fuel 2*len+4 suffices. *)
+Definition parse_g (lim : option nat) (numok : list N -> bool) (data : list N) : option (list tok * list N) :=
+  match pg_value lim numok (2 * length data + 4) 0 data with
   | Some (ts, rest) => if all_ws rest then Some (ts, rest) else None
   | None => None
   end.
+
+(* RFC 8259 *)
+Definition allnum (_ : list N) : bool := true.
+Definition p_value (f : nat) (l : list N) := pg_value None allnum f 0 l.
+Definition parse_json (data : list N) : option (list tok * list N) := parse_g None allnum data.
 Definition rfc_json (data : list N) : bool :=
   match parse_json data with Some _ => true | None => false end.
 
